@@ -475,7 +475,7 @@ def run(ctx):
     procs = Procs(ctx)
     try:
         pool = make_callers(procs)
-        nseq, nconc = (140, 60) if ctx.quick else (3500, 1500)
+        nseq, nconc = (140, 60) if ctx.quick else (1050, 450)
         hs = [gen_history(rng, i, pool, False) for i in range(nseq)] + [gen_history(rng, nseq + i, pool, True) for i in range(nconc)]
         # a fixed F8 replay first: two callers, same user and destination, colliding path/command line, both denied
         deny = {"defaultAccess": "deny", "mode": "enforce", "id": "f8", "rules": None}
